@@ -6,11 +6,11 @@ def main():
     ck = common.Check('C11')
     quick = ck.tier == 'quick'
     for (w, base, ml) in ([(2, 4, 4)] if quick else [(2, 4, 5), (3, 4, 3), (2, 8, 3)]):
-        cfg = "SPECIFICATION Spec\nCONSTANTS\n W = %d\n Base = %d\n MaxLen = %d\n Dev = {}\nINVARIANT SortOK\n" % (w, base, ml)
+        cfg = "SPECIFICATION Spec\nCONSTANTS\n W = %d\n Base = %d\n MaxLen = %d\n Dev = {}\nINVARIANT SortOK\nINVARIANT BufferOK\n" % (w, base, ml)
         r = tlc.run('Radix', cfg, timeout=3400)
         ck.add_tlc(r.summary(), 'Radix W=%d base=%d len<=%d' % (w, base, ml))
         common.tlc_verdict(ck, r, ck.notes['tlc_runs'][-1]['name'])
-    for dev in ('SignedMSBForUnsigned', 'SignAwareFromDigit1'):
+    for dev in ('SignedMSBForUnsigned', 'SignAwareFromDigit1', 'UniqEarlyReturnNoCopy'):
         cfg = 'SPECIFICATION Spec\nCONSTANTS\n W = 3\n Base = 4\n MaxLen = 2\n Dev = {"%s"}\nINVARIANT SortOK\n' % dev
         r = tlc.run('Radix', cfg, timeout=600)
         if r.violation != 'SortOK':
